@@ -67,9 +67,19 @@ class Rule :
                     ):
                         return
 
-            if hasattr(self, 'arg_paths') and m.body is not None:
+            if hasattr(self, 'arg_paths'):
+                # argNpath: the argument equals the value, or whichever of
+                # the two ends in '/' is a prefix of the other
+                body = m.body if m.body is not None else []
                 for idx, val in self.arg_paths:
-                    if idx >= len(m.body) or not m.body[idx].startswith(val):
+                    if idx >= len(body) or not isinstance(body[idx], str):
+                        return
+                    a = body[idx]
+                    if not (
+                        a == val
+                        or (a.endswith('/') and val.startswith(a))
+                        or (val.endswith('/') and a.startswith(val))
+                    ):
                         return
 
             # XXX arg0namespace -- Not quite sure how this one works
